@@ -32,9 +32,9 @@ let one_type (s : string) : ty =
 let base_of_type = function TBase b -> b | _ -> raise (Bad "base expected")
 
 (* extended signature (variants as v[...]) -> ety. The flavour markers of gen/catalogue.py select another Rust type for
-   the same D-Bus type and do not exist in the model: D S O G H are d s o g h, a marker C R N B after 'a' is skipped. *)
+   the same D-Bus type and do not exist in the model: D S O G H V are d s o g h v, a marker C R N B after 'a' is skipped. *)
 let parse_ety (s : string) : ety =
-  let s = String.map (function 'D' -> 'd' | 'S' -> 's' | 'O' -> 'o' | 'G' -> 'g' | 'H' -> 'h' | c -> c) s in
+  let s = String.map (function 'D' -> 'd' | 'S' -> 's' | 'O' -> 'o' | 'G' -> 'g' | 'H' -> 'h' | 'V' -> 'v' | c -> c) s in
   let n = String.length s in
   let pos = ref 0 in
   let rec go () : ety =
@@ -83,7 +83,11 @@ let parse_val (toks : string array) (pos : int ref) : val0 =
              let n = int_of_string (next ()) in
              let kvs = List.init n (fun _ -> ()) |> List.map (fun () -> let a = go () in let b = go () in (a, b)) in
              VDict (k, vt, kvs)
-    | "v" -> let t = one_type (next ()) in let x = go () in VVariant (t, x)
+    | "v" -> (* a typed variant can hold a Rust type whose signature is not a valid one (256 characters, 33 nested arrays):
+                the declared type is then built without the validity check of parse_description *)
+             let sg = next () in
+             let t = (try one_type sg with Bad _ -> erase (parse_ety sg)) in
+             let x = go () in VVariant (t, x)
     | "s" | "o" | "g" -> VText (base_of_type (one_type tag), list_of_hex (next ()))
     | _ -> VBase (base_of_type (one_type tag), n_of_string (next ()))
   in
@@ -124,10 +128,14 @@ let eval (line : string) : string =
   let pos = ref 0 in
   let next () = let t = toks.(!pos) in incr pos; t in
   let op = next () in
+  (* "RT@112", "BV@recv": where the harness puts the body it reads; the model has no offsets *)
+  let op = (match String.index_opt op '@' with Some i -> String.sub op 0 i | None -> op) in
   match op with
-  | "MT" | "MP" | "MPR" | "MPX" | "MV" | "MVR" | "MVX" ->
+  | "MT" | "MA" | "MP" | "MPR" | "MPX" | "MV" | "MVR" | "MVX" | "MPC" | "MPCR" | "MPCX" ->
+      (* MA: message_builder::marshal_as_variant = the typed marshaller on the variant (the harness prints the value wrapped);
+         MPC: marshal_container_param = the dynamic marshaller's entry on a container *)
+      let typed = (op = "MT" || op = "MA") in
       (* MV: impl Marshal for params::Variant = the dynamic marshaller's entry on the variant (marshal_param_top) *)
-      let typed = (op = "MT") in
       let _ty = if typed then next () else "" in
       let be = be_of (next ()) in
       let prefix = int_of_string (next ()) in
@@ -260,6 +268,16 @@ let eval (line : string) : string =
   | "BOFF" | "BRECV" -> "ok " ^ body_state ()
   (* BBEYOND: from_parts with an offset at or beyond the end of the buffer: same signature and descriptors, no bytes *)
   | "BBEYOND" -> cur_body := { !cur_body with bbuf = [] }; "ok " ^ body_state ()
+  (* BVALID: MarshalledMessageBody::validate (empty signature and no bytes: ok; else every type of the parsed signature in
+     turn, all bytes used) *)
+  | "BVALID" ->
+      let b = !cur_body in
+      let ok =
+        if b.bsig = [] && b.bbuf = [] then true
+        else (match parse_description b.bsig with
+              | Ok tys -> (match op_validate b.bbe N0 tys b.bbuf with Ok n -> int_of_n n = List.length b.bbuf | _ -> false)
+              | _ -> false) in
+      "valid=" ^ b2s ok
   (* ---- END C15 block ---- *)
   | _ -> "?"
 
